@@ -27,6 +27,9 @@ pub struct RefOut {
     pub degenerate: bool,
     /// a comparison the formula branches on is within rounding of a tie (reference is ambiguous)
     pub near_tie: bool,
+    /// the neutral case is exact in f64 as well (CCI: every bar of the window carries bit-identical
+    /// high, low and close, so the typical prices are equal however they are rounded)
+    pub exact_neutral: bool,
     /// largest |price field the indicator is documented to read| since reset
     pub m: f64,
     /// natural scale of the output for ratio oscillators (100, 1, 1/0.015, cumulative volume)
@@ -301,7 +304,7 @@ impl RefModel {
                 (s, Some(*b))
             }
         };
-        let mut out = RefOut { n: 1, v: [Dd::ZERO; 3], c: [1.0; 3], degenerate: false, near_tie: false, m: self.m, scale: 1.0, t };
+        let mut out = RefOut { n: 1, v: [Dd::ZERO; 3], c: [1.0; 3], degenerate: false, near_tie: false, exact_neutral: false, m: self.m, scale: 1.0, t };
         // keep last n+1 of the scalar series
         self.w.push_back(s);
         while self.w.len() > n.saturating_add(1) {
@@ -505,6 +508,16 @@ impl RefModel {
                     out.degenerate = true;
                     out.v[0] = Dd::ZERO;
                     out.c[0] = 1.0;
+                    let same = |it: &mut dyn Iterator<Item = &f64>| {
+                        let first = it.next().copied();
+                        let mut all = true;
+                        for x in it {
+                            all &= Some(*x) == first;
+                        }
+                        all
+                    };
+                    let cskip = self.w.len().saturating_sub(k);
+                    out.exact_neutral = same(&mut self.wh.iter()) && same(&mut self.wl.iter()) && same(&mut self.w.iter().skip(cskip));
                 } else {
                     out.v[0] = (tp - mean) / (dd(15.0) / dd(1000.0) * mad);
                     out.c[0] = self.m / mad.to_f64();
